@@ -178,6 +178,12 @@ class SciGateway(SerialGateway):
         self.wire.append({"kind": "send", "bits": bits, "value": value, "twice": twice, "echo": echo, "ctrl": b0, "t": t})
         if self.mute:
             return
+        if self.sim.tx_errors and self.sim.tx_errors.pop(0):
+            # the interface could not put the frame on the bus (collision): an ERROR status instead of the confirmation,
+            # nothing was transmitted, nothing is answered
+            self.wire[-1]["not_transmitted"] = True
+            self.emit(RW.sci_frame(0x30 | 7, 0, 0, 5), "status")
+            return
         oc = self.outcome(bits, value)
         if echo and bits in (16, 24):
             fb = list(value.to_bytes(nbytes, "big"))
@@ -218,6 +224,7 @@ class SerialSim:
         self.coalesce = []       # scripted booleans, consumed in order: merge the next chunk into this read?
         self.coalesced = 0
         self.splits = []         # scripted (k, gap): this read returns k bytes only, the rest after `gap` seconds
+        self.tx_errors = []      # scripted booleans, one per command frame (SCI): answer it with an ERROR status?
         self.split_reads = 0
         self.gw = LubaGateway(self) if kind == "luba" else SciGateway(self)
         self._saved = sermod.serial_asyncio
